@@ -77,6 +77,9 @@ func c02Gen(t *rapid.T) c02Case {
 	if rapid.IntRange(0, 2).Draw(t, "marks") == 0 {
 		egAddMarks(t, &c.G) // state markers, in particular behind a nullable last part
 	}
+	if rapid.IntRange(0, 2).Draw(t, "cmdNullable") == 0 {
+		egAddCmdNullable(t, &c.G) // nonterminals that are empty through an action-only alternative
+	}
 	if rapid.IntRange(0, 2).Draw(t, "noeoiInput") == 0 {
 		// an additional no-eoi entry point `Zz -> Zn: X 'z'` whose node type occurs nowhere else
 		first := c.G.Inputs[0].NT
@@ -242,7 +245,7 @@ func c02Check(c c02Case, res *batch.Result, run runFunc, r *ev.Recorder) *Failur
 func TestC02(t *testing.T) {
 	p := &batchProp[c02Case]{
 		ID:        "C02",
-		Rule:      "event-based grammars in extended notation: 1..4 nonterminals with 1..3 guarded alternatives, parts = terminals, references to later nonterminals, optional parts x?/(..)?, nested choices (..|..), lists x+ x* (.. separator 't')+/* and annotated possibly-empty parts (x? -> N); '-> Node' on nonterminals, alternatives, nested alternatives and list elements (6 node names shared between rules); in a third of the grammars state markers in a third of the alternatives, mostly at the end of the rule; with a skipped space token + fixWhitespace or without spaces; optimizeTables on/off; kept when Textmapper compiles them without conflicts. 30 sentences per input are derived from the spec itself (so the derivation is known), rendered to text and parsed by the generated parser; the listener's (type, offset, endoffset) sequence must equal the expected one: sub-rules and list elements report at their reduction, annotations inlined into a rule left to right, inner first, the rule's node last; ranges from the first to the last token, empty parts at the following token. Non-trivial: derivations exercising a nested annotation together with an empty annotated part or a list of >=2 elements; distinct by (grammar, options).",
+		Rule:      "event-based grammars in extended notation: 1..4 nonterminals with 1..3 guarded alternatives, parts = terminals, references to later nonterminals, optional parts x?/(..)?, nested choices (..|..), lists x+ x* (.. separator 't')+/* and annotated possibly-empty parts (x? -> N); '-> Node' on nonterminals, alternatives, nested alternatives and list elements (6 node names shared between rules); in a third of the grammars state markers in a third of the alternatives, mostly at the end of the rule; in a third, nonterminals that end a rule get an action-only alternative `| { _ = 0 }` (nullable through a command); with a skipped space token + fixWhitespace or without spaces; optimizeTables on/off; kept when Textmapper compiles them without conflicts. 30 sentences per input are derived from the spec itself (so the derivation is known), rendered to text and parsed by the generated parser; the listener's (type, offset, endoffset) sequence must equal the expected one: sub-rules and list elements report at their reduction, annotations inlined into a rule left to right, inner first, the rule's node last; ranges from the first to the last token, empty parts at the following token. Non-trivial: derivations exercising a nested annotation together with an empty annotated part or a list of >=2 elements; distinct by (grammar, options).",
 		Assume:    []string{"with a skipped space token fixWhitespace is enabled (without it the documented ranges include trailing whitespace before the next token)", "the order between annotations of different reductions follows the reduction order (children before parents); see DESIGN.md C02 on 'post-order'"},
 		Quick:     192, Thorough: 2400, BatchSize: 96,
 		Gen:       c02Gen,
